@@ -12,4 +12,10 @@ REPO="${VERIF_REPO:-/repo}"
 if [ ! -x "$HERE/bin/vuegocheck" ] || [ -n "$(find "$HERE/checker" -name '*.go' -newer "$HERE/bin/vuegocheck" 2>/dev/null | head -1)" ]; then
   (cd "$HERE/checker" && go build -o ../bin/vuegocheck .) || { echo "UNDECIDED: checker does not build"; exit 2; }
 fi
-exec "$HERE/bin/vuegocheck" -property "$PROP" -tier "$TIER" -repo "$REPO" -verif "$HERE"
+"$HERE/bin/vuegocheck" -property "$PROP" -tier "$TIER" -repo "$REPO" -verif "$HERE"
+RC=$?
+if [ "$TIER" = "thorough" ] && [ -f "$HERE/evidence/$PROP.json" ]; then
+  # deeper exploration: known-bad variants (kept seeded changes, pre-fix commits) in scratch worktrees; never alters the verdict
+  VERIF_REPO="$REPO" python3 "$HERE/tools/thorough_extra.py" "$PROP" || true
+fi
+exit $RC
